@@ -6,11 +6,17 @@ def funcs : List (String × String) := [
   ("internal/dmarc/evaluate.go:EvaluateAlignment", "7b76e2cbf2c6036b"),
   ("internal/dmarc/evaluate.go:ExtractFromDomain", "aaca32e2b5ef4a2b"),
   ("internal/dmarc/evaluate.go:FetchRecord", "cdf2401f3de42cee"),
+  ("internal/dmarc/evaluate.go:dmarcRecords", "039bf520a4fea9b2"),
   ("internal/dmarc/evaluate.go:isAligned", "0cc541d666ae38d5"),
+  ("internal/dmarc/evaluate.go:type EvalResult", "7c64186882f2118a"),
   ("internal/dmarc/verifier.go:NewVerifier", "158507ab948b50c7"),
   ("internal/dmarc/verifier.go:Verifier.Apply", "034ca55acbd8d3cc"),
   ("internal/dmarc/verifier.go:Verifier.Close", "770f981eb44f7f3f"),
   ("internal/dmarc/verifier.go:Verifier.FetchRecord", "8582566bac17c1b7"),
+  ("internal/dmarc/verifier.go:errPanic.Error", "6b9a18845798e846"),
+  ("internal/dmarc/verifier.go:type Verifier", "8086bd9a2487a52c"),
+  ("internal/dmarc/verifier.go:type errPanic", "d2d64e3e18742109"),
+  ("internal/dmarc/verifier.go:type verifyData", "af02233da37756e2"),
   ("internal/msgpipeline/check_runner.go:checkRunner.applyResults", "7aa5b1a3a230ef0d")
 ]
 
